@@ -110,3 +110,13 @@ pub fn start_http_client(dbs: Arc<Databases>, http_address: Arc<String>) {
         h.join().unwrap();
     }
 }
+
+#[cfg(nundb_verif)]
+pub fn verif_process_commands(
+    commands: &Vec<&str>,
+    receiver: &mut Receiver<String>,
+    dbs: &Arc<Databases>,
+    client: &mut Client,
+) -> Vec<String> {
+    process_commands(commands, receiver, dbs, client)
+}
